@@ -67,6 +67,13 @@
 // immediately followed by `if err != nil { ...terminating... }` whose block does not read v (the value Go returns
 // beside a non-nil error is not modelled): a match whose `none` arm is that block. time.Nanosecond .. time.Hour are
 // their values in ns (also as constant divisors).
+//
+// Cache-Status text / dispatch (added): in Str mode `make([]string, 0[, cap])` is the empty list, `append(xs, a, ...)`
+// is `xs ++ [a, ...]`, `strings.Join(xs, sep)` = Rv.SrcStr.joinSep sep xs (TRUSTED meaning); the kind of an expression
+// falls back on its syntactic Go type (struct field, Optional element) for integers and booleans. Spec `returns`
+// turns a function into a DECIDER: every return statement must match exactly one regexp (on its canonical text) and
+// yields the Lean value given for it ("{argK}" = the translated K-th argument of the returned call); the named results
+// are then not computed.
 package main
 
 import (
@@ -110,6 +117,7 @@ type Spec struct {
 	Imports   []string          `json:"imports"`   // extra Lean imports of the generated module
 	StrMode   bool              `json:"str"`       // string literals and string locals of this function are Rv.Str (one Char per byte), not Lean String
 	LeafKinds map[string]string `json:"leafkinds"` // canonical Go expression of a leaf => its kind ("Str", "Int", "Bool", "Hdr", "Strs")
+	Returns   map[string]string `json:"returns"`   // regexp on the CANONICAL text of a return statement => the Lean value it stands for (a decider: WHICH exit is taken); "{argK}" = the translated K-th argument of the returned call
 	HdrParam  string            `json:"hdrparam"`  // a Go parameter of type http.Header that the function mutates: a local of kind Hdr initialised from its binder, and the result of the translated function
 	Until     string            `json:"until"`     // translate the body up to and including the first top-level assignment to this variable, and return it
 	MapOrder  map[string]string `json:"maporder"`  // Go map variable ranged over => name of the Lean binder (List (K × V)) giving the iteration order
@@ -1354,6 +1362,12 @@ func (t *tr) kindOf(e ast.Expr) string {
 			return kStrs
 		case t.spec.StrMode && fn == "strings.SplitSeq":
 			return kStrSeq
+		case t.spec.StrMode && fn == "strings.Join":
+			return kStr
+		case t.spec.StrMode && fn == "make" && len(x.Args) >= 2 && show(x.Args[0]) == "[]string":
+			return kStrs
+		case t.spec.StrMode && fn == "append" && len(x.Args) >= 1 && t.kindOf(x.Args[0]) == kStrs:
+			return kStrs
 		}
 		if sel, ok := x.Fun.(*ast.SelectorExpr); ok && sel.Sel.Name == "Values" && len(x.Args) == 1 && t.kindOf(sel.X) == kHdr {
 			return kStrs
@@ -1362,6 +1376,15 @@ func (t *tr) kindOf(e ast.Expr) string {
 			if fd, ok := t.pkg.funcs[id.Name]; ok && !t.locals[id.Name] && fd.Type.Results != nil && len(fd.Type.Results.List) == 1 && len(fd.Type.Results.List[0].Names) <= 1 {
 				return kindOfGoType(fd.Type.Results.List[0].Type)
 			}
+		}
+	}
+	if t.spec.StrMode {
+		// the syntactic Go type, when known (a struct field, the element of an Optional, ...): integers and booleans
+		switch t.leanTypeOfGo(t.goTypeOf(e)) {
+		case "Int":
+			return kInt
+		case "Bool":
+			return kBool
 		}
 	}
 	return ""
@@ -1562,6 +1585,36 @@ func (t *tr) call(x *ast.CallExpr) comp {
 	if t.spec.StrMode {
 		if c, ok := t.strLibCall(fn, x); ok {
 			return c
+		}
+		// a []string built with make / append, joined with strings.Join (TRUSTED meaning: Rv.SrcStr.joinSep)
+		if fn == "make" && !t.locals["make"] && len(x.Args) >= 2 && show(x.Args[0]) == "[]string" {
+			if show(x.Args[1]) != "0" {
+				fail("%s (%s): `%s`: only make([]string, 0[, cap]) (an empty slice) is supported", t.spec.Lean, t.spec.File, show(x))
+			}
+			return pure("([] : List Str)")
+		}
+		if fn == "append" && !t.locals["append"] && len(x.Args) >= 1 && t.kindOf(x.Args[0]) == kStrs {
+			if x.Ellipsis.IsValid() {
+				fail("%s (%s): `%s`: append with a spread argument", t.spec.Lean, t.spec.File, show(x))
+			}
+			c := t.expr(x.Args[0])
+			els := []string{}
+			for _, a := range x.Args[1:] {
+				if _, isLit := a.(*ast.BasicLit); !isLit && t.kindOf(a) != kStr {
+					fail("%s (%s): `%s`: the appended value `%s` is not known to be a string of kind Str", t.spec.Lean, t.spec.File, show(x), show(a))
+				}
+				ac := t.strOperand(a)
+				c.pre = append(c.pre, ac.pre...)
+				els = append(els, ac.val)
+			}
+			c.val = "(" + c.val + " ++ [" + strings.Join(els, ", ") + "])"
+			return c
+		}
+		if fn == "strings.Join" && t.importsAs("strings", "strings") && !t.locals["strings"] && len(x.Args) == 2 {
+			if t.kindOf(x.Args[0]) != kStrs {
+				fail("%s (%s): `%s`: the joined value is not known to be a []string", t.spec.Lean, t.spec.File, show(x))
+			}
+			return join2(t.expr(x.Args[0]), t.strOperand(x.Args[1]), func(p, q string) string { return "(Rv.SrcStr.joinSep " + q + " " + p + ")" })
 		}
 		// h.Values(name) on a header of kind Hdr: http.Header canonicalises the name it is given
 		if sel, ok := x.Fun.(*ast.SelectorExpr); ok && sel.Sel.Name == "Values" && len(x.Args) == 1 && t.kindOf(sel.X) == kHdr {
@@ -1875,6 +1928,36 @@ func (t *tr) stmts(list []ast.Stmt) string {
 	case *ast.EmptyStmt:
 		return t.stmts(rest)
 	case *ast.ReturnStmt:
+		if len(t.spec.Returns) > 0 {
+			// a decider: every return statement must be named by exactly one rule of the spec
+			txt := t.canon(x)
+			keys := []string{}
+			for re := range t.spec.Returns {
+				if regexp.MustCompile(re).MatchString(txt) {
+					keys = append(keys, re)
+				}
+			}
+			if len(keys) != 1 {
+				fail("%s (%s): `%s` (canonical `%s`) is matched by %d rules of the spec's `returns` (exactly one is needed)", t.spec.Lean, t.spec.File, show(x), txt, len(keys))
+			}
+			term := t.spec.Returns[keys[0]]
+			c := comp{}
+			for _, m := range regexp.MustCompile(`\{arg(\d+)\}`).FindAllStringSubmatch(term, -1) {
+				k, _ := strconv.Atoi(m[1])
+				call, ok := (ast.Expr)(nil), false
+				if len(x.Results) == 1 {
+					call, ok = x.Results[0].(*ast.CallExpr)
+				}
+				if !ok || k >= len(call.(*ast.CallExpr).Args) {
+					fail("%s (%s): `%s`: the rule uses %s but the statement does not return a call with that many arguments", t.spec.Lean, t.spec.File, show(x), m[0])
+				}
+				ac := t.expr(call.(*ast.CallExpr).Args[k])
+				c.pre = append(c.pre, ac.pre...)
+				term = strings.ReplaceAll(term, m[0], "("+ac.val+")")
+			}
+			c.val = term
+			return t.wrapReturn(c)
+		}
 		if len(x.Results) == 0 {
 			if t.spec.ErrMode != "" {
 				fail("%s: bare return with errmode %q", t.spec.Lean, t.spec.ErrMode)
@@ -3078,7 +3161,7 @@ func translate(g *genOut, pkg *pkgInfo, sp *Spec, key string) {
 		}
 	}
 	pre := ""
-	if ftype.Results != nil {
+	if ftype.Results != nil && len(sp.Returns) == 0 { // a decider (spec.returns) does not compute the results
 		for _, f := range ftype.Results.List {
 			for _, n := range f.Names {
 				t.named = append(t.named, n.Name)
